@@ -101,6 +101,12 @@ Proof.
   destruct r; try discriminate H.
   match goal with |- context [vec_interest l m a ?acc'] => specialize (IHForall acc'); destruct (vec_interest l m a acc') end. exact IHForall.
 Qed.
+Lemma vec_interest_all_kind : forall xs m a p q, Forall (fun x : calls => rkind (snd (x m a)) = KI) xs -> rkind (snd (vec_interest_all xs m a p q)) = KI.
+Proof.
+  intros xs m a p q H. revert p q. induction H; intros p q; simpl; [reflexivity|]. destruct (x m a) as [lg r]. simpl in H.
+  destruct r; try discriminate H.
+  match goal with |- context [vec_interest_all l m a ?p' ?q'] => specialize (IHForall p' q'); destruct (vec_interest_all l m a p' q') end. exact IHForall.
+Qed.
 Lemma vec_hint_kind : forall xs m a acc, Forall (fun x : calls => rkind (snd (x m a)) = KH) xs -> rkind (snd (vec_hint xs m a acc)) = KH.
 Proof.
   intros xs m a acc H. revert acc. induction H; intro acc; simpl; [reflexivity|]. destruct (x m a) as [lg r]. simpl in H.
@@ -121,8 +127,7 @@ Proof.
     { apply Forall_map_calls. eapply Forall_impl; [|exact H]. intros s0 Hs0. apply Hs0; exact Hm. }
     rewrite sub_unf_vec. tie3. unfold vec_sem at 1.
     destruct v, m; try discriminate Hm; crow; try reflexivity;
-      try (apply vec_all_kind; exact HF); try (apply vec_interest_kind; exact HF); try (apply vec_hint_kind; exact HF).
-    destruct (map call (map (sub_obj (etb true)) xs)) eqn:E; [reflexivity|]. apply vec_interest_kind; exact HF.
+      try (apply vec_all_kind; exact HF); try (apply vec_interest_all_kind; exact HF); try (apply vec_hint_kind; exact HF).
   - pose proof (IHs1 m a Hm) as H1. pose proof (IHs2 m a Hm) as H2.
     rewrite sub_unf_pair. tie3. unfold layered_sem at 1.
     destruct m; try discriminate Hm; crow; cbn [meth_name]; crow; try reflexivity.
@@ -184,7 +189,7 @@ Lemma vec1_call : forall v x m a, sscope m = true ->
 Proof.
   intros v x m a Hm. pose proof (sub_typed v x m a Hm) as HT.
   rewrite sub_unf_vec. tie3. unfold vec_sem at 1. cbn [map].
-  destruct v, m; try discriminate Hm; crow; cbn [vec_unit vec_all vec_interest vec_hint];
+  destruct v, m; try discriminate Hm; crow; cbn [vec_unit vec_all vec_interest_all vec_hint];
     destruct (call (sub_obj _ x) _ a) as [l r]; simpl in HT; destruct r; try discriminate HT; cbn [fst];
     try (rewrite app_nil_r; reflexivity);
     try (destruct b; [rewrite app_nil_r|]; reflexivity);
@@ -215,6 +220,7 @@ Proof.
     cbn [String.eqb Ascii.eqb Bool.eqb orb]; rewrite ?id_call by reflexivity; rewrite ?id_none; try rewrite (Hn eq_refl);
     destruct (call (sub_obj _ x) _ a) as [l r]; simpl in HT; destruct r; try discriminate HT; cbn [fst app is_sometimes];
     rewrite ?app_nil_r; try reflexivity.
+  destruct v; reflexivity.
 Qed.
 
 Lemma id_inner_call : forall v x m a, sscope m = true -> (m = max_level_hint -> is_none (sub_obj (etb v) x) = false) ->
@@ -226,6 +232,7 @@ Proof.
     cbn [String.eqb Ascii.eqb Bool.eqb orb]; rewrite ?id_call by reflexivity; rewrite ?id_none; try rewrite (Hn eq_refl);
     destruct (call (sub_obj _ x) _ a) as [l r]; simpl in HT; destruct r; try discriminate HT; cbn [fst app is_sometimes];
     rewrite ?app_nil_r; try reflexivity.
+  - destruct v; reflexivity.
   - destruct i; reflexivity.
   - destruct b; rewrite ?app_nil_r; reflexivity.
   - unfold pick_level_hint. cbn. destruct h; reflexivity.
@@ -320,6 +327,11 @@ Section V.
     induction 1; intros; simpl; [reflexivity|]. rewrite H. destruct (y m a) as [lg rs]. destruct rs; try reflexivity.
     rewrite IHForall2. reflexivity.
   Qed.
+  Lemma vec_interest_all_at : forall m xs ys, Forall2 (ceq_at m) xs ys -> forall a p q, vec_interest_all xs m a p q = vec_interest_all ys m a p q.
+  Proof.
+    induction 1; intros; simpl; [reflexivity|]. rewrite H. destruct (y m a) as [lg rs]. destruct rs; try reflexivity.
+    rewrite IHForall2. reflexivity.
+  Qed.
   Lemma vec_hint_at : forall m xs ys, Forall2 (ceq_at m) xs ys -> forall a acc, vec_hint xs m a acc = vec_hint ys m a acc.
   Proof.
     induction 1; intros; simpl; [reflexivity|]. rewrite H. destruct (y m a) as [lg rs]. destruct rs; try reflexivity.
@@ -338,8 +350,7 @@ Section V.
       rewrite !sub_unf_vec. tie3. unfold vec_sem at 1 3.
       destruct v, m; try discriminate Hm; crow;
         try (rewrite (vec_unit_at _ _ _ HF); reflexivity); try (apply vec_all_at; exact HF);
-        try (apply vec_interest_at; exact HF); try (apply vec_hint_at; exact HF).
-      destruct pre; cbn [app map] in *; apply vec_interest_at; exact HF.
+        try (apply vec_interest_all_at; exact HF); try (apply vec_hint_at; exact HF).
     - cbn [sub_obj is_none].
       assert (HM : map is_none (map So (pre ++ x :: post)) = map is_none (map So (pre ++ y :: post))).
       { rewrite !map_app. cbn [map]. rewrite N. reflexivity. }
